@@ -1162,3 +1162,6 @@ Proof.
   - exact (whole_cmd1_step k K d q1 pfx q2 w1 w2 dash fl w3 w4 u q3 q4 v mask pre post H0 H1 H2 H3 H4 H5 H6 H7 H8 H9 H10 H11 H12 H13 H14 H15 H16 H17 H18 H19 H20 H21 H22 H23).
   - exact (whole_cmd1_step k K d q1 pfx q2 w1 w2 dash fl w3 w4 u q3 q4 mask mask pre post H0 H1 H2 H3 H4 H5 H6 H7 H8 H9 H10 H11 H12 H13 H14 H15 H17 H17 H18 H19 H21 H21 H23 H23).
 Qed.
+
+Lemma in_gen_keys k : existsb (beq k) gen_keys = true -> In k gen_keys.
+Proof. intros H. apply existsb_exists in H. destruct H as (x & Hx & E). apply beq_eq in E. subst. exact Hx. Qed.
